@@ -10,7 +10,7 @@ import math
 import sys, os, subprocess, json, time, hashlib, re, shutil, importlib
 from concurrent.futures import ProcessPoolExecutor
 
-VERIF = os.environ.get('SFX_VERIF') or os.path.dirname(os.path.dirname(os.path.abspath(__file__)))   # /verif, or a scratch copy made by tools/sandbox.sh
+VERIF = os.environ.get('SFX_VERIF') or os.path.dirname(os.path.dirname(os.path.realpath(__file__)))   # /verif, or a scratch copy made by tools/sandbox.sh
 REPO = os.environ.get('SFX_REPO', '/repo')
 LEAN = VERIF + '/lean'
 HARNESS = VERIF + '/harness'
